@@ -864,16 +864,147 @@ func sprintfShape(v ssa.Value) (format string, args []ssa.Value, ok bool) {
 	return constant.StringVal(k.Value), args, true
 }
 
-// sameCacheKeyFormat compares the way a cache key is built with the way mast builds the key it
-// passes to NodeCache.Contains in (*mastNode).store.
-func sameCacheKeyFormat(c *Ctx, key ssa.Value) (bool, string) {
+// keyPiece is one piece of a string key: a literal or a computed part.
+type keyPiece struct {
+	lit string
+	dyn ssa.Value
+}
+
+// keyTemplate reads how a string is put together: constants, + concatenation, fmt.Sprintf with a
+// constant format of %s/%v verbs, and single-assignment locals are looked through; everything else is
+// one computed piece.
+func keyTemplate(v ssa.Value, depth int) ([]keyPiece, bool) {
+	if depth > 8 {
+		return nil, false
+	}
+	switch x := v.(type) {
+	case *ssa.MakeInterface:
+		return keyTemplate(x.X, depth+1)
+	case *ssa.ChangeType:
+		return keyTemplate(x.X, depth+1)
+	case *ssa.Const:
+		if x.Value != nil && x.Value.Kind() == constant.String {
+			return []keyPiece{{lit: constant.StringVal(x.Value)}}, true
+		}
+		return nil, false
+	case *ssa.BinOp:
+		if x.Op == token.ADD {
+			l, ok1 := keyTemplate(x.X, depth+1)
+			r, ok2 := keyTemplate(x.Y, depth+1)
+			return append(l, r...), ok1 && ok2
+		}
+	case *ssa.UnOp:
+		if x.Op == token.MUL {
+			if al, ok := x.X.(*ssa.Alloc); ok {
+				var src ssa.Value
+				n := 0
+				for _, r := range *al.Referrers() {
+					if st, ok := r.(*ssa.Store); ok && st.Addr == ssa.Value(al) {
+						src = st.Val
+						n++
+					}
+				}
+				if n == 1 {
+					return keyTemplate(src, depth+1)
+				}
+			}
+		}
+	case *ssa.Call:
+		if f := x.Call.StaticCallee(); f != nil && an.PkgPathOf(f) == "fmt" && f.Name() == "Sprintf" {
+			ft, args, ok := sprintfShape(x)
+			if !ok {
+				return nil, false
+			}
+			var out []keyPiece
+			ai := 0
+			for i := 0; i < len(ft); i++ {
+				if ft[i] != '%' {
+					out = append(out, keyPiece{lit: string(ft[i])})
+					continue
+				}
+				if i+1 >= len(ft) {
+					return nil, false
+				}
+				i++
+				switch ft[i] {
+				case '%':
+					out = append(out, keyPiece{lit: "%"})
+				case 's', 'v':
+					if ai >= len(args) {
+						return nil, false
+					}
+					sub, ok := keyTemplate(args[ai], depth+1)
+					if !ok {
+						return nil, false
+					}
+					out = append(out, sub...)
+					ai++
+				default:
+					return nil, false
+				}
+			}
+			return out, ai == len(args)
+		}
+	}
+	return []keyPiece{{dyn: v}}, true
+}
+
+// normalise merges adjacent literals.
+func normaliseKey(ps []keyPiece) []keyPiece {
+	var out []keyPiece
+	for _, p := range ps {
+		if p.dyn == nil && p.lit == "" {
+			continue
+		}
+		if p.dyn == nil && len(out) > 0 && out[len(out)-1].dyn == nil {
+			out[len(out)-1].lit += p.lit
+			continue
+		}
+		out = append(out, p)
+	}
+	return out
+}
+
+// keyShape renders a template with roles: P = derived from NodeURLPrefix(), N = the node's name (as
+// decided by isName), ? = anything else.
+func keyShape(ps []keyPiece, dep func(ssa.Value, func(ssa.Value) bool), isName func(ssa.Value) bool) string {
+	var sb strings.Builder
+	for _, p := range normaliseKey(ps) {
+		if p.dyn == nil {
+			sb.WriteString(fmt.Sprintf("%q", p.lit))
+			continue
+		}
+		pre, nm := false, false
+		dep(p.dyn, func(v ssa.Value) bool {
+			if cl, ok := v.(*ssa.Call); ok && calleeLabel(cl) == "NodeURLPrefix" {
+				pre = true
+			}
+			if isName != nil && isName(v) {
+				nm = true
+			}
+			return false
+		})
+		switch {
+		case pre && !nm:
+			sb.WriteString("<P>")
+		case nm && !pre:
+			sb.WriteString("<N>")
+		case isName == nil && !pre:
+			sb.WriteString("<N>")
+		default:
+			sb.WriteString("<?>")
+		}
+	}
+	return sb.String()
+}
+
+// mastCacheKeyShape is the shape of the key mast passes to NodeCache.Contains in (*mastNode).store.
+func mastCacheKeyShape(c *Ctx) (string, string) {
 	store := depMethod(c, mastPkg, "mastNode", "store")
 	if store == nil {
-		return false, "mast's (*mastNode).store not found"
+		return "", "mast's (*mastNode).store not found"
 	}
-	var ref string
-	var refN int
-	found := false
+	plain := func(v ssa.Value, pred func(ssa.Value) bool) { an.DependsOn(v, pred) }
 	fns := append([]*ssa.Function{store}, store.AnonFuncs...)
 	for _, f := range fns {
 		for _, call := range an.Calls(f) {
@@ -881,41 +1012,12 @@ func sameCacheKeyFormat(c *Ctx, key ssa.Value) (bool, string) {
 				continue
 			}
 			a := call.Common().Args[len(call.Common().Args)-1]
-			if mi, ok := a.(*ssa.MakeInterface); ok {
-				a = mi.X
-			}
-			if ft, as, ok := sprintfShape(a); ok {
-				ref, refN, found = ft, len(as), true
+			if ps, ok := keyTemplate(a, 0); ok {
+				return keyShape(ps, plain, nil), ""
 			}
 		}
 	}
-	if !found {
-		return false, "cannot read how mast builds its cache key"
-	}
-	if mi, ok := key.(*ssa.MakeInterface); ok {
-		key = mi.X
-	}
-	ft, as, ok := sprintfShape(key)
-	if !ok {
-		return false, fmt.Sprintf("mast uses fmt.Sprintf(%q, prefix, name); the key here is not a Sprintf", ref)
-	}
-	if ft != ref || len(as) != refN {
-		return false, fmt.Sprintf("mast uses the format %q, here %q", ref, ft)
-	}
-	// same order: the prefix first, the name second
-	if refN == 2 {
-		first := false
-		an.DependsOn(as[0], func(v ssa.Value) bool {
-			if cl, ok := v.(*ssa.Call); ok && calleeLabel(cl) == "NodeURLPrefix" {
-				first = true
-			}
-			return false
-		})
-		if !first {
-			return false, "the first verb does not get NodeURLPrefix()"
-		}
-	}
-	return true, ""
+	return "", "cannot read how mast builds its cache key"
 }
 
 func c09EvictsCache(c *Ctx) {
@@ -928,6 +1030,29 @@ func c09EvictsCache(c *Ctx) {
 	}
 	name := core.FuncName(dh)
 	sc := c.Scope(dh)
+	ref, refWhy := mastCacheKeyShape(c)
+	if ref == "" {
+		c.R.Unk(rule, name+": deleted nodes leave the cache", c.P.Pos(dh.Pos()), refWhy)
+		return
+	}
+	c.R.Stats["C09.gc-evicts-cache.mast-key-shape:"+ref] = 1
+	// dependence that follows a helper's parameters to the arguments at its only call site
+	var scoped func(v ssa.Value, pred func(ssa.Value) bool)
+	scoped = func(v ssa.Value, pred func(ssa.Value) bool) {
+		an.DependsOn(v, func(w ssa.Value) bool {
+			if p, ok := w.(*ssa.Parameter); ok {
+				if a := sc.ArgOfParam(p); a != ssa.Value(p) {
+					scoped(a, pred)
+				}
+			}
+			if fv, ok := w.(*ssa.FreeVar); ok {
+				if a := sc.ResolveFree(fv); a != ssa.Value(fv) {
+					scoped(a, pred)
+				}
+			}
+			return pred(w)
+		})
+	}
 	n := 0
 	for _, f := range sc.Funcs {
 		for _, del := range deleteCalls(f) {
@@ -936,52 +1061,64 @@ func c09EvictsCache(c *Ctx) {
 				continue
 			}
 			n++
-			H := loopHeaderOf(del.Block())
 			good := false
 			why := "the loop that deletes node objects does not remove them from cfg.NodeCache: mast's 'already stored' test keeps answering yes for a deleted object, and a later commit that re-creates the same content skips its PUT — the committed version refers to an object that does not exist (node_cache_entries>0: insert 1; insert 2; vacuum; delete 2; vacuum: a fresh reader sees an empty table)"
-			for _, call := range an.Calls(f) {
-				if calleeLabel(call) != "Remove" || H == nil || loopHeaderOf(call.Block()) != H {
+			isName := func(v ssa.Value) bool {
+				return tgt.KeySuffix != nil && (v == tgt.KeySuffix || an.Unwrap(v) == an.Unwrap(tgt.KeySuffix))
+			}
+			for _, call := range sc.Calls() {
+				if calleeLabel(call) != "Remove" {
+					continue
+				}
+				// same loop iteration: both sit (lifted to their common function) in one loop
+				x, y, ok := scCommon(sc, call, del)
+				if !ok {
+					continue
+				}
+				H := loopHeaderOf(y.Block())
+				if H == nil || loopHeaderOf(x.Block()) != H {
 					continue
 				}
 				rv := call.Common().Value
 				if !call.Common().IsInvoke() {
 					rv = an.RecvValue(call)
 				}
-				if rv == nil || !an.DependsOn(rv, func(v ssa.Value) bool { return an.FieldOfLoad(v) == cacheF }) {
-					continue
+				isCache := false
+				if rv != nil {
+					scoped(rv, func(v ssa.Value) bool {
+						if an.FieldOfLoad(v) == cacheF {
+							isCache = true
+						}
+						return false
+					})
 				}
 				args := call.Common().Args
-				if len(args) == 0 {
+				if !isCache || len(args) == 0 {
 					continue
 				}
-				keyArg := args[len(args)-1]
-				// the key names this iteration's node under the store's NodeURLPrefix
-				usesPrefix, usesName := false, false
-				an.DependsOn(keyArg, func(v ssa.Value) bool {
-					if cl, ok := v.(*ssa.Call); ok && calleeLabel(cl) == "NodeURLPrefix" {
-						usesPrefix = true
-					}
-					if tgt.KeySuffix != nil && (v == tgt.KeySuffix || an.Unwrap(v) == an.Unwrap(tgt.KeySuffix)) {
-						usesName = true
-					}
-					return false
-				})
-				// and it is built exactly the way mast builds the key it asks the cache about
-				fmtOK, fmtWhy := sameCacheKeyFormat(c, keyArg)
-				if usesPrefix && usesName && fmtOK {
+				ps, ok := keyTemplate(args[len(args)-1], 0)
+				if !ok {
+					why = fmt.Sprintf("cannot read how the cache key removed at %s is built", c.P.Pos(call.Pos()))
+					continue
+				}
+				shape := keyShape(ps, scoped, isName)
+				if shape == ref {
 					good = true
-				} else if usesPrefix && usesName {
-					why = fmt.Sprintf("the cache key removed at %s is not built the way mast builds the key it looks up (%s): Remove of a key that is never present is silent, the deleted node stays 'already stored' for the cache", c.P.Pos(call.Pos()), fmtWhy)
 				} else {
-					why = fmt.Sprintf("the cache key removed at %s is not '<NodeURLPrefix()>/<name of the deleted node>' (prefix %v, name %v)", c.P.Pos(call.Pos()), usesPrefix, usesName)
+					why = fmt.Sprintf("the cache key removed at %s has the shape %s, mast looks nodes up under %s (P = NodeURLPrefix(), N = the node's name): Remove of a key that is never present is silent, the deleted node stays 'already stored' for the cache", c.P.Pos(call.Pos()), shape, ref)
 				}
 			}
-			c.R.Cond(good, rule, name+": deleted nodes leave the cache", c.P.Pos(del.Pos()), "the node's cache key is removed in the same loop", why)
+			c.R.Cond(good, rule, name+": deleted nodes leave the cache", c.P.Pos(del.Pos()), "the node's cache key "+ref+" is removed in the same loop", why)
 		}
 	}
 	if n == 0 {
 		c.R.Unk(rule, name+": deleted nodes leave the cache", c.P.Pos(dh.Pos()), "no DELETE of node objects found")
 	}
+}
+
+// scCommon lifts two instructions to the deepest function of the scope that contains both.
+func scCommon(sc *an.Scope, a, b ssa.Instruction) (ssa.Instruction, ssa.Instruction, bool) {
+	return sc.Common(a, b)
 }
 
 // ---- C09.gc-retires-first: nothing vacuum is about to gut is still listed as current ----------------
